@@ -437,12 +437,23 @@ func summarizeAs(fd protoreflect.FileDescriptor, second bool) (text string, unsp
 	w.num(imps.Len())
 	for i := 0; i < imps.Len(); i++ {
 		w.hex(imps.Get(i).Path())
+		switch {
+		case imps.Get(i).IsPublic:
+			w.hex("public ")
+		case imps.Get(i).IsWeak:
+			w.hex("weak ")
+		default:
+			w.hex("")
+		}
 	}
 	w.opts(fd)
 	exts := fd.Extensions()
 	w.num(exts.Len())
 	for i := 0; i < exts.Len(); i++ {
-		w.hex(string(exts.Get(i).ContainingMessage().FullName()))
+		// the extended message, named relative to the file (real contextRefName)
+		extendee, err := protoprint.VerifContextRefName(exts.Get(i).Parent(), exts.Get(i).ContainingMessage())
+		w.fail(err)
+		w.hex(extendee)
 		w.field(exts.Get(i))
 	}
 	var items []sumItem
